@@ -107,9 +107,14 @@ GlobalFn(name) == LET gs == {g \in 2..Len(P.fns) : FN(g).parent = 0 /\ FN(g).nam
                   IF gs = {} THEN 0 ELSE CHOOSE g \in gs : TRUE
 
 (* ---- environments ------------------------------------------------------- *)
+\* module-level variables (P.gnames) live in the first NG cells; a name resolves to one of them when the function declares
+\* it global, or when no enclosing activation binds it
+NG == Len(P.gnames)
+GCell(name) == LET is == {i \in 1..NG : P.gnames[i] = name} IN IF is = {} THEN 0 ELSE CHOOSE i \in is : TRUE
 RECURSIVE CellOf(_, _, _)
 CellOf(es, env, name) ==
-  IF env = 0 THEN 0
+  IF env = 0 THEN GCell(name)
+  ELSE IF name \in Range(FN(es[env].fn).globals) THEN GCell(name)
   ELSE IF es[env].cellOf[name] # 0 THEN es[env].cellOf[name]
   ELSE CellOf(es, es[env].parent, name)
 
@@ -595,9 +600,10 @@ Init ==
          ord == SelectSeq(P.names, LAMBDA nm : nm \in loc)
          idx(nm) == CHOOSE i \in 1..n : ord[i] = nm
          pidx(nm) == CHOOSE i \in 1..Len(FN(1).params) : FN(1).params[i] = nm IN
-     /\ envs = << [fn |-> 1, parent |-> 0, cellOf |-> [nm \in NameSet |-> IF nm \in loc THEN idx(nm) ELSE 0]] >>
+     /\ envs = << [fn |-> 1, parent |-> 0, cellOf |-> [nm \in NameSet |-> IF nm \in loc THEN NG + idx(nm) ELSE 0]] >>
      /\ inp \in IF P.pure = 1 THEN [1..Len(FN(1).params) -> 0..IntMax] ELSE {<<>>}
-     /\ cells = [i \in 1..n |-> IF ord[i] \in Range(FN(1).params)
+     /\ cells = [i \in 1..NG |-> <<"t", 0, 10 + i>>] \o      \* the module-level variables hold tokens of their own
+                [i \in 1..n |-> IF ord[i] \in Range(FN(1).params)
                                 THEN (IF P.pure = 1 THEN IntV(inp[pidx(ord[i])]) ELSE <<"t", 0, pidx(ord[i])>>)
                                 ELSE Unbound]
   /\ heap = <<>>
@@ -612,5 +618,6 @@ DecBound == Len(dec) <= MaxDec      \* CONSTRAINT: executions consuming more dec
 Terminal == status[1] # "run"
 (* reporting invariant: one JSON line per complete execution *)
 Out == IF status[1] = "ret" THEN <<"ret", ObsV(status[2])>> ELSE status
-Emit == Terminal => PrintT(ToJson([pid |-> pid, dec |-> dec, inp |-> inp, log |-> log, out |-> Out, xlog |-> xlog, xnode |-> xnode, xfirst |-> xfirst, delx |-> delx, oc |-> oc, finx |-> finx]))
+Globals == [i \in 1..NG |-> ObsV(cells[i])]       \* what the module-level variables hold now
+Emit == Terminal => PrintT(ToJson([pid |-> pid, dec |-> dec, inp |-> inp, log |-> log, out |-> Out, xlog |-> xlog, xnode |-> xnode, xfirst |-> xfirst, delx |-> delx, oc |-> oc, finx |-> finx, gl |-> Globals]))
 =============================================================================
